@@ -119,6 +119,20 @@ def recase(rng, s, mode):
     return ''.join(c.lower() if rng.random() < 0.3 else c for c in s)
 
 
+EXACT_LENGTHS = [255, 256, 257, 511, 512, 513, 1023, 1024, 1025, 1535, 1536, 1537, 2047, 2048, 2049]
+
+
+def force_exact_length(rng, wl):
+    """one record (or all of a small set) gets a residue count that sits exactly on a buffer size of the readers"""
+    alpha = {'dna': DNA, 'rna': RNA, 'protein': PROT}[wl['kind']]
+    B = rng.choice(EXACT_LENGTHS)
+    ks = [rng.randrange(len(wl['seqs']))] if rng.random() < 0.7 else list(range(min(3, len(wl['seqs']))))
+    for k in ks:
+        x = wl['seqs'][k]
+        wl['seqs'][k] = (x * (B // max(1, len(x)) + 1))[:B] if rng.random() < 0.5 and x else (x + rand_seq(rng, alpha, B))[:B]
+    return wl
+
+
 PROFILES = ['tiny', 'small', 'medium', 'kmeans', 'hirsch', 'ratio', 'dups']     # + 'large' (thorough tier, explicit only)
 
 
@@ -154,6 +168,11 @@ def gen_workload(rng, profile=None, kinds=('dna', 'rna', 'protein'), weights=Non
             L = rng.choice([59, 60, 61, 119, 120, 121, 255, 256, 257])
         shape = rng.choice(['star', 'balanced', 'twoclusters'])
         psub = rng.choice([0.0, 0.05, 0.2]); pindel = rng.choice([0.0, 0.0, 0.01])
+    elif profile == 'seqcap':
+        # record counts at the growth step of the sequence array (512 entries at a time, grown lazily by the readers)
+        n = rng.choice([511, 512, 512, 512, 513, 1023, 1024, 1024, 1025])
+        L = rng.randint(4, 10)
+        shape = rng.choice(['clusters', 'balanced', 'star'])
     elif profile == 'manylines':
         # more than 1024 output lines in Clustal/MSF (line-buffer growth) and hundreds of rows per block
         n, L = rng.randint(150, 420), rng.randint(130, 300)
